@@ -650,6 +650,8 @@ class Node:
 
         if before is True:
             before = 0  # prepend
+        elif before is False:
+            before = None  # append (note that `False` is an `int`)
 
         children = self._children
         if children is None:
@@ -772,6 +774,8 @@ class Node:
 
         if before is True:
             before = 0  # prepend
+        elif before is False:
+            before = None  # append (note that `False` is an `int`)
 
         target_siblings = new_parent._children
         if target_siblings is None:
